@@ -160,7 +160,7 @@ def stress_plan(variants, thorough):
     plan = []
     for v in variants:
         scale = 1 if v != "sim" else 4          # the mutex-simulated model is slower under contention
-        plan += [(v, "ticket", [n, it // scale]), (v, "dectest", [n, it // scale]), (v, "casinc", [n, it // (4 * scale)]),
+        plan += [(v, "ticket", [n, it // scale]), (v, "dectest", [n, it // scale]), (v, "incdec", [n, 4 * it // scale]), (v, "incdec", [2, 4 * it // scale], "plain"), (v, "casinc", [n, it // (4 * scale)]),
                  (v, "pticket", [n, it // scale]),                      # pointer-sized word, crossing 2^32
                  (v, "mix", [n, it // (2 * scale)]), (v, "mix", [3, it // (2 * scale)]),     # every operation mixed on one word
                  (v, "mp", [it // scale]), (v, "sb", [(1000000 if thorough else 600000) // scale])]
@@ -175,7 +175,7 @@ def quick_plan(variants):
     for v in variants:
         scale = 1 if v != "sim" else 2
         plan += [(v, "mix", [4, 60000 // scale]), (v, "ticket", [4, 40000 // scale]), (v, "pticket", [3, 40000 // scale]),
-                 (v, "dectest", [4, 40000 // scale]), (v, "mp", [20000 // scale])]
+                 (v, "dectest", [4, 40000 // scale]), (v, "incdec", [4, 200000 // scale], "plain"), (v, "mp", [20000 // scale])]
     return plan
 
 
